@@ -27,21 +27,33 @@ Proof. intros c Hc. pose proof (forallb_zseq _ 64 colour_sweep c Hc) as H. cbv b
 Lemma colour565_range c : colour16_ok (oled_color c).
 Proof. unfold oled_color, colour16_ok, wrap16. apply Z.mod_pos_bound. lia. Qed.
 
-(* all 65536 RGB565 colours (256 x 256): the 8-bit grey of RGB16BitToGray (no uint16/uint32 wrap
-   occurs) has the documented luma in its high nibble *)
-Lemma gray_sweep :
-  all_rect 0 0 256 256 (fun lo hi =>
-    let g := rgb16_to_gray (hi * 256 + lo) in
-    (g / 16 =? luma_nibble (hi * 256 + lo)) && (0 <=? g) && (g <? 256)) = true.
-Proof. vm_compute. reflexivity. Qed.
+(* all RGB565 colours, by arithmetic (no sweep): none of the uint16 / uint32 wraps of
+   RGB16BitToGray fires, and the high nibble of its result is the documented luma *)
+Lemma land_ones_mod v k : 0 <= k -> Z.land v (Z.ones k) = v mod 2 ^ k.
+Proof. intros. apply Z.land_ones; auto. Qed.
 
 Theorem gray_luma : forall c, colour16_ok c -> rgb16_to_gray c / 16 = luma_nibble c /\ 0 <= rgb16_to_gray c < 256.
 Proof.
-  intros c Hc. unfold colour16_ok in Hc.
-  assert (A : 0 <= c mod 256 < 0 + 256) by lia. assert (B : 0 <= c / 256 < 0 + 256) by lia.
-  pose proof (all_rect_elim _ _ _ _ _ gray_sweep _ _ A B) as H1.
-  cbv beta zeta in H1. replace (c / 256 * 256 + c mod 256) with c in H1 by lia.
-  generalize dependent (rgb16_to_gray c). generalize (luma_nibble c). intros. lia.
+  intros c Hc. unfold colour16_ok in Hc. unfold rgb16_to_gray, luma_nibble, luma16.
+  change 31 with (Z.ones 5). change 63 with (Z.ones 6). change 65535 with (Z.ones 16).
+  rewrite !land_ones_mod by lia. rewrite !Z.shiftr_div_pow2 by lia. rewrite Z.shiftl_1_l.
+  change (2 ^ 5) with 32. change (2 ^ 6) with 64. change (2 ^ 11) with 2048. change (2 ^ 15) with 32768.
+  change (2 ^ 16) with 65536. change (2 ^ 8) with 256.
+  set (r := c mod 32). set (g := (c / 32) mod 64). set (b := (c / 2048) mod 32).
+  assert (Hr : 0 <= r < 32) by (unfold r; lia). assert (Hg : 0 <= g < 64) by (unfold g; lia).
+  assert (Hb : 0 <= b < 32) by (unfold b; lia).
+  clearbody r g b. clear Hc c.
+  unfold wrap16, wrap32, wrap8.
+  rewrite (Z.mod_small (r * 2114)), (Z.mod_small (g * 1040)), (Z.mod_small (b * 2114)) by lia.
+  rewrite (Z.mod_small (r * 2114)), (Z.mod_small (g * 1040)), (Z.mod_small (b * 2114)) by lia.
+  set (S := 19595 * (r * 2114) + 38470 * (g * 1040) + 7471 * (b * 2114) + 32768).
+  assert (HS : 0 <= S < 4294967296) by (unfold S; lia). clearbody S.
+  rewrite (Z.mod_small S) by lia.
+  assert (H1 : 0 <= S / 65536 < 65536) by lia.
+  rewrite (Z.mod_small (S / 65536)) by lia.
+  assert (H2 : 0 <= S / 65536 / 256 < 256) by lia.
+  rewrite (Z.mod_small (S / 65536 / 256)) by lia.
+  split; [|lia]. lia.
 Qed.
 
 (* packing two nibbles: all 256 x 256 byte pairs *)
